@@ -188,6 +188,11 @@ inductive Ranger (F : Type)
   | str (runes : Str) (cur : Nat)
   | map (addr : Nat) (order : List Key)
 
+/-- mapRange.next: skip the keys of the snapshot that have been deleted in the meantime -/
+def nextPresent {V : Type} (m : MapVal V) : List Key → Option (Key × List Key)
+  | [] => Option.none
+  | k :: rest => if m.has k then some (k, rest) else nextPresent m rest
+
 /-- ranger.next: the value for the loop variable and the advanced ranger, or `none` when done -/
 def rangerNext (st : St F) : Ranger F → Option (Val F × Ranger F)
   | .step cur stop step =>
@@ -205,15 +210,21 @@ def rangerNext (st : St F) : Ranger F → Option (Val F × Ranger F)
     | Option.none => Option.none
   | .map a order =>
     match heapGet st a with
-    | some (.map m) =>
-      match order.dropWhile (fun k => !m.has k) with
-      | k :: rest => some (.str k, .map a rest)
-      | [] => Option.none
+    | some (.map m) => (nextPresent m order).map (fun p => (.str p.1, .map a p.2))
     | _ => Option.none
 
 def bindParams : List Str → List (Val F) → St F → St F
   | p :: ps, v :: vs, st => bindParams ps vs (setVar st p v)
   | _, _, st => st
+
+/-- pushFuncScope + parameter binding: the state in which the body of a user function starts —
+exactly one fresh local scope holding the parameters (and the variadic array); the caller's
+block scopes are not visible, the globals are -/
+def calleeState (fd : FuncDef F) (vs : List (Val F)) (st : St F) : St F :=
+  let st2 := bindParams fd.params vs { st with locals := [[]] }
+  match fd.variadic with
+  | some vn => let (a, s) := alloc st2 (.arr vs); setVar s vn (.arr a)
+  | Option.none => st2
 
 mutual
 /-- Go `eval` on an expression node -/
@@ -350,17 +361,11 @@ def evalCall (prog : Program F) : Nat → Str → List (Expr F) → St F → Res
         match lookupFunc prog.funcs name with
         | Option.none => .err (.goPanic "evalFunccall: nil FuncDef") st'
         | some fd =>
-          let saved := st'.locals
-          let st1 := { st' with locals := [[]] }
-          if vs.length < fd.params.length then .err (.goPanic "evalFunccall: args index out of range") st1 else
-          let st2 := bindParams fd.params vs st1
-          let st3 : St F := match fd.variadic with
-            | some vn => let (a, s) := alloc st2 (.arr vs); setVar s vn (.arr a)
-            | Option.none => st2
-          match execBlockNode prog fuel fd.body st3 with
-          | .err o st4 => .err o { st4 with locals := saved }
-          | .ok (.ret (some v)) st4 => .ok v { st4 with locals := saved }
-          | .ok _ st4 => .ok .none { st4 with locals := saved }
+          if vs.length < fd.params.length then .err (.goPanic "evalFunccall: args index out of range") st' else
+          match execBlockNode prog fuel fd.body (calleeState fd vs st') with
+          | .err o st4 => .err o { st4 with locals := st'.locals }
+          | .ok (.ret (some v)) st4 => .ok v { st4 with locals := st'.locals }
+          | .ok _ st4 => .ok .none { st4 with locals := st'.locals }
 
 /-- Go `eval` on a BlockStatement node: one tick, then evalStatments -/
 def execBlockNode (prog : Program F) : Nat → List (Stmt F) → St F → Res F (Completion F)
